@@ -25,7 +25,7 @@ EXPLANATION = ("C13: decided as one update of the real Alg object from an arbitr
                "saddle point is a fixed point; over two consecutive updates the proximal-point metric ||x-x*||^2/tau - 2<A(x-x*),u-u*> + ||u-u*||^2/sigma "
                "of the pair (x before, u after) does not increase; accelerated branches keep tau*sigma, theta in (0,1], fixed points; arrays updated in place.")
 
-AMATS = {"a1": [[2]], "a21": [[1], [2]], "d2": [[1, 0], [0, 3]], "g2": [[2, 1], [0, 1]], "a12": [[1, 2]]}
+AMATS = {"id1": [[1]], "id2": [[1, 0], [0, 1]], "a1": [[2]], "a21": [[1], [2]], "d2": [[1, 0], [0, 3]], "g2": [[2, 1], [0, 1]], "a12": [[1, 2]]}
 
 
 def _A(name, V):
@@ -223,6 +223,10 @@ def h_pdhg(cfg, V):
     _kkt_g(cfg["g"], g, xs, Amat.T @ us, V)
     Aop = lambda v: Amat @ v        # noqa
     AHop = lambda v: Amat.T @ v     # noqa
+    if cfg.get("alias"):
+        # identity operator whose forward AND adjoint return their argument itself (as sigpy.linop.Identity / Reshape do): the algorithm
+        # must not scale or accumulate into what the operator hands back
+        Aop = AHop = (lambda v: v)
     mode = cfg["mode"]
     gp = _pos(V, "gp") if mode == "gamma_primal" else 0
     gd = _pos(V, "gd") if mode == "gamma_dual" else 0
@@ -363,4 +367,12 @@ def configs(tier, seed):
                             "max_paths": 3000})
         out.append({"id": "pdhg-fixed:%s:g=l1:array:gamma_primal" % A, "h": "pdhg", "A": A, "g": "l1", "steps": "array", "mode": "gamma_primal", "what": "fixed",
                     "max_paths": 3000})
+    for g in ("none", "l1", "box"):
+        for steps in ("scalar", "array"):
+            out.append({"id": "pdhg-fixed:id1:g=%s:%s:plain:alias" % (g, steps), "h": "pdhg", "A": "id1", "g": g, "steps": steps, "mode": "plain", "what": "fixed",
+                        "alias": True, "max_paths": 3000})
+        out.append({"id": "pdhg-metric:id1:g=%s:scalar:alias" % g, "h": "pdhg", "A": "id1", "g": g, "steps": "scalar", "mode": "plain", "what": "metric",
+                    "alias": True, "max_paths": 3000, "cost": 50})
+    out.append({"id": "pdhg-fixed:id2:g=l1:array:plain:alias", "h": "pdhg", "A": "id2", "g": "l1", "steps": "array", "mode": "plain", "what": "fixed",
+                "alias": True, "max_paths": 3000})
     return out
